@@ -97,6 +97,7 @@ type Exec struct {
 	boxes            map[string]boxed
 	realFloats       bool
 	stubsUsed        map[string]bool
+	anchorArgTypes   []types.Type // static types of the arguments of the anchor being fired (send)
 	abstracted       map[string]bool // calls over-approximated under `pragma unknowncalls havoc`
 	inlined          map[string]bool
 	calleesUsed      map[string]bool
